@@ -3,5 +3,5 @@
 cd /verif
 for d in seeded/*/; do
   id=$(basename $d); prop=$(python3 -c "import json;print(json.load(open('$d/meta.json'))['property'])")
-  ./tools/run_seed.sh $d/patch.diff $prop ${1:-quick} | head -1
+  ./tools/run_seed.sh /verif/${d}patch.diff $prop ${1:-quick} | head -1
 done
